@@ -610,6 +610,17 @@ func typedPayload(typ string, t *sim.Tape, rnd *sim.Rand) []byte {
 			}
 		}
 	case "ssix":
+		if t.Chance(100) {
+			// every count as large as the box size permits: a decoder must not allocate more than the box can hold
+			vf(0, 0)
+			n := []int{4096, 16384, 65000}[t.Draw(3)]
+			subs := (n - 8) / 8
+			u32(uint32(subs))
+			for len(p) < n {
+				u32(uint32((n - len(p)) / 4))
+			}
+			return p[:n]
+		}
 		vf(0, 0)
 		u32(claimed)
 		for i := 0; i < cnt; i++ {
